@@ -101,6 +101,17 @@ def search(model, b):
     for a in model.get("stats", {}).get("oneof_anomalies", []):
         out.append({"kind": "schema", "ops": [], "row": a,
                     "what": "oneof %s.%s: the struct dispatches tags %r, the enum declares %r" % (a["message"], a["oneof"], a["tags"], a["variant_tags"])})
+    for efq, vals in sorted(model.get("enums", {}).items()):
+        if vals and vals[0][1] != 0:
+            f = {"kind": "schema", "ops": [], "row": {"enum": efq, "first": list(vals[0])},
+                 "what": "enumeration %s: the first declared variant is %s = %d, which the bindings use as the field default (protobuf's default is 0)" % (efq, vals[0][0], vals[0][1])}
+            short = efq.split(".")[-1]
+            for fq, m in model["messages"].items():
+                hit = next((x for x in m["fields"] if x.get("kind") == "enum" and x.get("enum", "").split("::")[-1] == short and x.get("label") not in ("repeated",)), None)
+                if hit is not None and vals[0][1] > 0:
+                    f["ops"] = ["cfg proto 0", "prt %s x%s" % (fq, (varint(hit["tag"] * 8) + varint(vals[0][1])).hex())]
+                    break
+            out.append(f)
     # run the witnesses on the real bindings
     for f in out:
         if f["ops"] and b is not None and "miniwasm" in b.exe:
